@@ -54,6 +54,9 @@ type Conn struct {
 	localPeerID  core.PeerID
 	bandwidth    *bandwidth.Limiter
 
+	// Upper bound for the payload length a remote peer may announce.
+	maxPieceLength int64
+
 	events Events
 
 	nc            net.Conn
@@ -106,6 +109,7 @@ func newConn(
 		createdAt:      clk.Now(),
 		localPeerID:    localPeerID,
 		bandwidth:      bandwidth,
+		maxPieceLength: info.MaxPieceLength(),
 		events:         events,
 		nc:             nc,
 		config:         config,
@@ -221,7 +225,14 @@ func (c *Conn) readMessage() (*Message, error) {
 	if p2pMessage.Type == p2p.Message_PIECE_PAYLOAD {
 		// For payload messages, we must read the actual payload to the connection
 		// after reading the message.
-		payload, err := c.readPayload(p2pMessage.PiecePayload.Length)
+		pp := p2pMessage.GetPiecePayload()
+		if pp == nil {
+			return nil, errors.New("piece payload message without header")
+		}
+		if pp.Length < 0 || int64(pp.Length) > c.maxPieceLength {
+			return nil, fmt.Errorf("invalid payload length %d (max piece length %d)", pp.Length, c.maxPieceLength)
+		}
+		payload, err := c.readPayload(pp.Length)
 		if err != nil {
 			return nil, fmt.Errorf("read payload: %s", err)
 		}
